@@ -49,7 +49,7 @@ func (o hOp) String() string {
 	return "?"
 }
 
-var junks = [][]byte{{0xAA}, {0xAA, 0xAA, 0xAA, 0xAA, 0xAA}, {0x00}, {0xFF}}
+var junks = [][]byte{{0xAA}, {0xAA, 0xAA, 0xAA, 0xAA, 0xAA}, {0x00}, {0xFF}, bytes.Repeat([]byte{0x55}, 5000)}
 
 // Buffer capacity classes: -1 zero value; -2 NewBuffer over an owned non-empty slice; >=0 NewBuffer(make([]byte,0,c)).
 const (
